@@ -37,5 +37,13 @@ def main():
             print("%-8s own=%-5s %s" % (d, prop in fired, {k: [x.split(" at ")[0][:90] for x in v[:2]] for k, v in fired.items()}))
         finally:
             shutil.rmtree(tmp, ignore_errors=True)
-    json.dump(res, open(os.path.join(VERIF, "seeded", "RESULTS.json"), "w"), indent=1)
+    rp = os.path.join(VERIF, "seeded", "RESULTS.json")
+    allres = json.load(open(rp)) if os.path.exists(rp) else {}
+    for k_, v_ in res.items():
+        if a.all_props or k_ not in allres:
+            allres[k_] = v_
+        else:
+            allres[k_].setdefault("fired", {}).update(v_.get("fired", {}))
+            allres[k_]["detected_by_own_check"] = v_["detected_by_own_check"]
+    json.dump(allres, open(rp, "w"), indent=1, sort_keys=True)
 main()
